@@ -9,6 +9,7 @@ on the variant but not on the real tree is a false alarm of the checker.
 
 Usage: tools/benign_sweep.py [--jobs N] [--params] [module-substring ...]
 
+--invert-if instead swaps the branches of every if/else (negating the test).
 --params also renames function parameters that are never passed by keyword
 anywhere in the repository (self / cls excepted).
 """
@@ -24,6 +25,7 @@ from psa import model, run as psarun   # noqa: E402
 
 SUFFIX = '_rn'
 RENAME_PARAMS = False
+INVERT_IF = False
 KW_NAMES = set()      # names used as keyword at any call site of the repo
 
 
@@ -168,10 +170,33 @@ def rename_locals(tree):
     return count
 
 
+def invert_ifs(tree):
+    """if c: A else: B  ->  if not c: B else: A   (for every if that has
+    an else branch which is not an elif chain)."""
+    n = 0
+    for node in ast.walk(tree):
+        if isinstance(node, ast.If) and node.orelse and not (
+                len(node.orelse) == 1 and isinstance(node.orelse[0], ast.If)):
+            t = node.test
+            if isinstance(t, ast.UnaryOp) and isinstance(t.op, ast.Not):
+                node.test = t.operand
+            else:
+                node.test = ast.UnaryOp(op=ast.Not(), operand=t)
+            node.body, node.orelse = node.orelse, node.body
+            n += 1
+    ast.fix_missing_locations(tree)
+    return n
+
+
 def variant(relpath, repo='/repo'):
     with open(os.path.join(repo, relpath), encoding='utf-8') as fh:
         src_ = fh.read()
     tree = ast.parse(src_)
+    if INVERT_IF:
+        n = invert_ifs(tree)
+        out = ast.unparse(tree) + '\n'
+        compile(out, relpath, 'exec')
+        return out, n
     n = rename_locals(tree)
     out = ast.unparse(tree) + '\n'
     compile(out, relpath, 'exec')
@@ -195,8 +220,8 @@ def failed_keys(ctx):
 
 
 def work(args):
-    global RENAME_PARAMS
-    relpath, base, RENAME_PARAMS, kws = args
+    global RENAME_PARAMS, INVERT_IF
+    relpath, base, RENAME_PARAMS, kws, INVERT_IF = args
     KW_NAMES.update(kws)
     t0 = time.time()
     try:
@@ -217,12 +242,15 @@ def main(argv):
     jobs = 16
     pats = []
     params = False
+    invert = False
     it = iter(argv)
     for a in it:
         if a == '--jobs':
             jobs = int(next(it))
         elif a == '--params':
             params = True
+        elif a == '--invert-if':
+            invert = True
         else:
             pats.append(a)
     base_ctx = psarun.Ctx('/repo')
@@ -238,7 +266,7 @@ def main(argv):
         for n in ast.walk(m.tree):
             if isinstance(n, ast.keyword) and n.arg:
                 kws.add(n.arg)
-    tasks = [(m, base_l, params, sorted(kws)) for m in mods]
+    tasks = [(m, base_l, params, sorted(kws), invert) for m in mods]
     bad = 0
     with multiprocessing.Pool(min(jobs, len(tasks))) as pool:
         for relpath, n, new, errs, dt in pool.imap_unordered(work, tasks):
